@@ -177,3 +177,223 @@ Proof.
   change (7 * N.of_nat 0) with 0 in H. change (2^0) with 1 in H. change (2^(64-0)) with W64 in H.
   rewrite H by lia. f_equal. lia.
 Qed.
+
+(* ------------------------------------------------------------------ *)
+(* b. zig-zag                                                          *)
+(* ------------------------------------------------------------------ *)
+Lemma lxor_ones64 a : a < W64 -> N.lxor a ones64 = ones64 - a.
+Proof.
+  intros Ha.
+  assert (Hd : N.land a (N.lxor a ones64) = 0).
+  { apply N.bits_inj. intros n. rewrite N.land_spec, N.lxor_spec, N.bits_0.
+    change ones64 with (N.ones 64).
+    destruct (N.ltb_spec n 64) as [Hlt|Hge].
+    - rewrite N.ones_spec_low by exact Hlt. destruct (N.testbit a n); reflexivity.
+    - rewrite (small_testbit_high a 64 n) by (try exact Ha; lia). reflexivity. }
+  pose proof (N.add_nocarry_lxor _ _ Hd) as Hadd.
+  rewrite <- N.lxor_assoc, N.lxor_nilpotent, N.lxor_0_l in Hadd.
+  lia.
+Qed.
+
+Lemma zz_enc_u_val u : u < W64 ->
+  zz_enc_u u = if u <? 9223372036854775808 then 2 * u else 1 + 2 * (ones64 - u).
+Proof.
+  intros Hu. unfold zz_enc_u. rewrite N.shiftl_mul_pow2. change (2^1) with 2.
+  destruct (N.leb_spec 9223372036854775808 u) as [Hge|Hlt].
+  - replace (u <? 9223372036854775808) with false by (symmetry; apply N.ltb_ge; exact Hge).
+    assert (Hw : wrap64 (u * 2) = u * 2 - W64) by (unfold wrap64, W64 in *; lia).
+    rewrite Hw, N.lxor_comm, lxor_ones64 by (unfold W64 in *; lia).
+    unfold ones64, W64 in *. lia.
+  - replace (u <? 9223372036854775808) with true by (symmetry; apply N.ltb_lt; exact Hlt).
+    rewrite N.lxor_0_l. unfold wrap64, W64. rewrite N.mod_small by lia. lia.
+Qed.
+
+Theorem zz_enc_u_lt u : u < W64 -> zz_enc_u u < W64.
+Proof.
+  intros Hu. rewrite zz_enc_u_val by exact Hu.
+  destruct (N.ltb_spec u 9223372036854775808) as [Hlt|Hge]; unfold ones64, W64 in *; lia.
+Qed.
+
+Theorem zz_dec_enc_u u : u < W64 -> zz_dec_u (zz_enc_u u) = u.
+Proof.
+  intros Hu. rewrite zz_enc_u_val by exact Hu. unfold zz_dec_u.
+  destruct (N.ltb_spec u 9223372036854775808) as [Hlt|Hge].
+  - rewrite N.odd_mul. change (N.odd 2) with false. cbn [andb]. rewrite N.lxor_0_r.
+    rewrite N.shiftr_div_pow2. change (2^1) with 2. rewrite N.mul_comm, N.div_mul by lia. reflexivity.
+  - rewrite N.odd_add_mul_2. change (N.odd 1) with true. cbv iota.
+    rewrite N.shiftr_div_pow2. change (2^1) with 2.
+    replace ((1 + 2 * (ones64 - u)) / 2) with (ones64 - u) by lia.
+    rewrite lxor_ones64 by (unfold ones64, W64; lia). unfold ones64, W64 in *. lia.
+Qed.
+
+Theorem to_u64_lt v : to_u64 v < W64.
+Proof. unfold to_u64, W64. lia. Qed.
+
+Theorem of_to_u64 v : (-9223372036854775808 <= v < 9223372036854775808)%Z -> of_u64 (to_u64 v) = v.
+Proof.
+  intros Hv. unfold of_u64, to_u64.
+  destruct (N.ltb_spec (Z.to_N (v mod 18446744073709551616)) 9223372036854775808) as [Hlt|Hge]; lia.
+Qed.
+
+Theorem varint_roundtrip v rest : (-9223372036854775808 <= v < 9223372036854775808)%Z ->
+  dec_sv (enc_sv v ++ rest) = Ok v rest.
+Proof.
+  intros Hv. unfold dec_sv, enc_sv.
+  rewrite uvarint_roundtrip by (apply zz_enc_u_lt, to_u64_lt).
+  rewrite zz_dec_enc_u by apply to_u64_lt. rewrite of_to_u64 by exact Hv. reflexivity.
+Qed.
+
+(* ------------------------------------------------------------------ *)
+(* c. DecodeVarint32 range check                                       *)
+(* ------------------------------------------------------------------ *)
+Theorem varint32_range v rest : (-9223372036854775808 <= v < 9223372036854775808)%Z ->
+  dec_sv32 (enc_sv v ++ rest) =
+  if ((-2147483648 <=? v) && (v <=? 2147483647))%Z then Ok v rest else Overflow32.
+Proof.
+  intros Hv. unfold dec_sv32. rewrite varint_roundtrip by exact Hv.
+  destruct (Z.ltb_spec 2147483647 v) as [H1|H1]; destruct (Z.ltb_spec v (-2147483648)) as [H2|H2];
+  destruct (Z.leb_spec (-2147483648) v) as [H3|H3]; destruct (Z.leb_spec v 2147483647) as [H4|H4];
+  cbn [orb andb]; try reflexivity; exfalso; lia.
+Qed.
+
+(* ------------------------------------------------------------------ *)
+(* d. fixed 64-bit little endian                                       *)
+(* ------------------------------------------------------------------ *)
+Lemma le_bytes_length n x : length (le_bytes n x) = n.
+Proof. revert x. induction n as [|n IH]; intros x; cbn [le_bytes length]; [reflexivity|]. rewrite IH. reflexivity. Qed.
+
+Lemma le_value_bytes n x : le_value (le_bytes n x) = x mod 2^(8 * N.of_nat n).
+Proof.
+  revert x. induction n as [|n IH]; intros x; cbn [le_bytes le_value].
+  - change (2^(8 * N.of_nat 0)) with 1. rewrite N.mod_1_r. reflexivity.
+  - rewrite IH, land255, N.shiftr_div_pow2. change (2^8) with 256.
+    replace (8 * N.of_nat (S n)) with (8 + 8 * N.of_nat n) by lia.
+    rewrite N.pow_add_r. change (2^8) with 256.
+    rewrite N.mod_mul_r; [reflexivity|lia|apply N.pow_nonzero; lia].
+Qed.
+
+Lemma firstn_app_len {A} (l r : list A) n : length l = n -> firstn n (l ++ r) = l.
+Proof.
+  intros H. subst n. induction l as [|a l IH]; cbn [length firstn app].
+  - destruct r; reflexivity.
+  - rewrite IH. reflexivity.
+Qed.
+Lemma skipn_app_len {A} (l r : list A) n : length l = n -> skipn n (l ++ r) = r.
+Proof.
+  intros H. subst n. induction l as [|a l IH]; cbn [length skipn app]; [reflexivity|exact IH].
+Qed.
+
+Theorem f64le_length bits : length (enc_f64le_bits bits) = 8%nat.
+Proof. apply le_bytes_length. Qed.
+
+Theorem f64le_roundtrip bits rest : bits < W64 ->
+  dec_f64le_bits (enc_f64le_bits bits ++ rest) = Ok bits rest.
+Proof.
+  intros Hb. unfold dec_f64le_bits.
+  rewrite app_length, f64le_length.
+  replace (8 + length rest <? 8)%nat with false by (symmetry; apply Nat.ltb_ge; lia).
+  rewrite firstn_app_len, skipn_app_len by apply f64le_length.
+  unfold enc_f64le_bits. rewrite le_value_bytes.
+  change (2^(8 * N.of_nat 8)) with W64. rewrite N.mod_small by exact Hb. reflexivity.
+Qed.
+
+(* ------------------------------------------------------------------ *)
+(* e. varfloat on the rotated bit pattern                              *)
+(* ------------------------------------------------------------------ *)
+Lemma split57 i : (i <= 7)%nat -> 2^(64 - 7 * N.of_nat (S i)) * 2^(7 * N.of_nat i) = 2^57.
+Proof. intros H. rewrite <- N.pow_add_r. f_equal. lia. Qed.
+
+Lemma lor128_ge n : 128 <= N.lor n 128.
+Proof.
+  destruct (N.le_gt_cases 128 (N.lor n 128)) as [H|H]; [exact H|exfalso].
+  assert (Hb : N.testbit (N.lor n 128) 7 = false) by (apply (small_testbit_high _ 7 7); [exact H|lia]).
+  rewrite N.lor_spec in Hb. change (N.testbit 128 7) with true in Hb.
+  rewrite orb_true_r in Hb. discriminate Hb.
+Qed.
+
+Lemma dec_enc_vf_loop : forall f i a y rest,
+  (i + f = 8)%nat -> y < 2^(64 - 7 * N.of_nat i) -> a mod 2^(64 - 7 * N.of_nat i) = 0 ->
+  dec_vf_loop (S f) i a (57 - 7 * N.of_nat i) (enc_vf_loop f (y * 2^(7 * N.of_nat i)) ++ rest)
+  = Ok (a + y) rest.
+Proof.
+  induction f as [|f IH]; intros i a y rest Hi Hy Ha.
+  - assert (i = 8%nat) by lia. subst i. rewrite enc_vf_0. cbn [app]. rewrite dec_vf_step.
+    rewrite Nat.eqb_refl.
+    change (7 * N.of_nat 8) with 56 in *. change (64 - 56) with 8 in *.
+    rewrite N.shiftr_div_pow2, N.div_mul by (apply N.pow_nonzero; lia).
+    rewrite (lor_high_low a y 8) by assumption. reflexivity.
+  - rewrite enc_vf_S.
+    assert (Hi8 : Nat.eqb i 8 = false) by (apply Nat.eqb_neq; lia).
+    pose proof (split64 i ltac:(lia)) as H64.
+    pose proof (split_hi i ltac:(lia)) as Hhi.
+    pose proof (split57 i ltac:(lia)) as H57.
+    pose proof (pow_split i) as Hps.
+    assert (Hs : 57 - 7 * N.of_nat i = 64 - 7 * N.of_nat (S i)) by lia.
+    rewrite Hs.
+    set (p := 2^(7 * N.of_nat i)) in *. set (q := 2^(64 - 7 * N.of_nat (S i))) in *.
+    set (Q := 2^(64 - 7 * N.of_nat i)) in *.
+    assert (Hp0 : p <> 0) by (apply N.pow_nonzero; lia).
+    assert (Hq0 : q <> 0) by (apply N.pow_nonzero; lia).
+    assert (Hn : N.shiftr (y * p) 57 = y / q).
+    { rewrite N.shiftr_div_pow2, <- H57. apply N.div_mul_cancel_r; assumption. }
+    assert (Hx' : wrap64 (N.shiftl (y * p) 7) = (y mod q) * (p * 128)).
+    { unfold wrap64. rewrite N.shiftl_mul_pow2. change (2^7) with 128.
+      replace W64 with (q * (p * 128)) by lia.
+      rewrite <- N.mul_assoc. apply N.mul_mod_distr_r; lia. }
+    rewrite Hn, Hx'.
+    pose proof (N.div_mod y q Hq0) as Hdm. pose proof (N.mod_lt y q Hq0) as Hml.
+    set (n := y / q) in *. set (r := y mod q) in *.
+    assert (Hn128 : n < 128) by nia.
+    assert (Haq : a = q * 128 * (a / Q)).
+    { pose proof (N.div_mod a Q ltac:(lia)) as Hda. rewrite Ha in Hda. lia. }
+    assert (Hlor : N.lor a (N.shiftl n (64 - 7 * N.of_nat (S i))) = a + n * q).
+    { rewrite N.shiftl_mul_pow2. fold q.
+      apply (lor_high_low a (n * q) (64 - 7 * N.of_nat i)); [exact Ha|].
+      fold Q. rewrite Hhi. nia. }
+    destruct (N.eqb_spec (r * (p * 128)) 0) as [Hz|Hnz].
+    + assert (Hr0 : r = 0) by nia. cbn [app]. rewrite dec_vf_step, Hi8.
+      replace (n <? 128) with true by (symmetry; apply N.ltb_lt; exact Hn128).
+      rewrite Hlor. f_equal. lia.
+    + cbn [app]. rewrite dec_vf_step, Hi8.
+      replace (N.lor n 128 <? 128) with false by (symmetry; apply N.ltb_ge, lor128_ge).
+      rewrite lor128 by lia. rewrite land127.
+      replace ((n mod 128 + 128) mod 128) with n by lia.
+      rewrite Hlor.
+      replace (64 - 7 * N.of_nat (S i) - 7) with (57 - 7 * N.of_nat (S i)) by lia.
+      replace (r * (p * 128)) with (r * 2^(7 * N.of_nat (S i))) by (rewrite Hps; reflexivity).
+      rewrite IH.
+      * f_equal. lia.
+      * lia.
+      * exact Hml.
+      * fold q. rewrite Haq.
+        replace (q * 128 * (a / Q) + n * q) with ((128 * (a / Q) + n) * q) by lia.
+        apply N.mod_mul. exact Hq0.
+Qed.
+
+Theorem varfloat_raw_roundtrip x rest : x < W64 -> dec_vf_raw (enc_vf_raw x ++ rest) = Ok x rest.
+Proof.
+  intros Hx. unfold dec_vf_raw, enc_vf_raw.
+  pose proof (dec_enc_vf_loop 8 0 0 x rest eq_refl) as H.
+  change (7 * N.of_nat 0) with 0 in H. change (2^0) with 1 in H. change (2^(64-0)) with W64 in H.
+  change (57 - 0) with 57 in H. rewrite N.mul_1_r in H.
+  rewrite H; [reflexivity|exact Hx|reflexivity].
+Qed.
+
+Lemma rotl6_val x : rotl6 x = (x * 64) mod W64 + x / 288230376151711744.
+Proof. unfold rotl6, wrap64. rewrite N.shiftl_mul_pow2, N.shiftr_div_pow2. reflexivity. Qed.
+Lemma rotr6_val x : rotr6 x = x / 64 + (x * 288230376151711744) mod W64.
+Proof. unfold rotr6, wrap64. rewrite N.shiftl_mul_pow2, N.shiftr_div_pow2. reflexivity. Qed.
+
+Theorem rotl6_lt x : x < W64 -> rotl6 x < W64.
+Proof. intros Hx. rewrite rotl6_val. unfold W64 in *. lia. Qed.
+Theorem rotr6_rotl6 x : x < W64 -> rotr6 (rotl6 x) = x.
+Proof. intros Hx. rewrite rotr6_val, rotl6_val. unfold W64 in *. lia. Qed.
+
+Theorem vf_fold_lt b : vf_fold b < W64.
+Proof. unfold vf_fold. apply rotl6_lt. unfold wrap64, W64. lia. Qed.
+Theorem vf_unfold_fold b : b < W64 -> vf_unfold (vf_fold b) = b.
+Proof.
+  intros Hb. unfold vf_unfold, vf_fold.
+  rewrite rotr6_rotl6 by (unfold wrap64, W64; lia).
+  unfold wrap64, W64, one_bits in *. lia.
+Qed.
